@@ -39,9 +39,6 @@ e = priority(p.eft) || deny
 m = r.sub == p.sub && r.obj == p.obj && r.act == p.act
 """
 
-# the priority field in the LAST position (every bundled example has it first)
-PRIO_LAST = PRIO.replace("p = priority, sub, obj, act, eft", "p = sub, obj, act, eft, priority")
-
 # two policy definitions: the first WITHOUT a priority field, the second with one (selected through an enforce context)
 PRIO2 = """[request_definition]
 r = sub, obj, act
@@ -354,6 +351,14 @@ def op_alphabet(sec, ptype, rules, with_update=True, read_fed=False):
         ops.append(("updatemany", sec, ptype, [rules[0], rules[1]], [rules[2], rules[2]]))
         ops.append(("updatemany", sec, ptype, [rules[0]], [rules[0][:-1] + ["other"]]))
         ops.append(("updatemany", sec, ptype, [rules[0], rules[1]], [rules[2]]))
+        # batch shapes of update_policies: the same OLD rule twice (to two rules / to one rule), a chain through a rule
+        # that is itself replaced, a new rule that is a kept rule, three pairs rotating
+        other2 = rules[1][:-1] + ["other"]
+        ops.append(("updatemany", sec, ptype, [rules[0], rules[0]], [rules[0][:-1] + ["other"], other2]))
+        ops.append(("updatemany", sec, ptype, [rules[0], rules[0]], [other2, other2]))
+        ops.append(("updatemany", sec, ptype, [rules[0], rules[1]], [rules[1], other2]))
+        ops.append(("updatemany", sec, ptype, [rules[0], rules[1]], [other2, rules[2]]))
+        ops.append(("updatemany", sec, ptype, [rules[0], rules[1], rules[2]], [rules[1], rules[2], rules[0]]))
     if read_fed:
         # batch calls whose argument is the object returned by a read ("remove everything I can see")
         ops.append(("removeread", sec, ptype, 0, None))
@@ -453,10 +458,6 @@ def interleave_reads(hist, reads, rng=None, every=True):
 
 def first_match_decision(policy, req, shape):
     off = 1 if shape.pi is not None else 0
-    if shape.pi:
-        # the priority field is not the first one: take it out, the other fields follow the request's order
-        policy = [list(r[: shape.pi]) + list(r[shape.pi + 1 :]) for r in policy]
-        off = 0
     for r in policy:
         if list(r[off : off + len(req)]) == list(req) and len(r) > off + len(req) and r[off + len(req)] in ("allow", "deny"):
             return "T" if r[off + len(req)] == "allow" else "F"
@@ -507,7 +508,7 @@ def compare(prop, res, shape, hist, impl, answers, want):
             if bad:
                 res.violation(
                     {
-                        "signature": f"{prop}:{op[0]}:{shape.sec}:{'prio' if shape.pi is not None else 'plain'}" + (":" + _uf_kind(prev_pol, op) if op[0] == "updatefiltered" and prev_pol is not None else ""),
+                        "signature": f"{prop}:{op[0]}:{shape.sec}:{'prio' if shape.pi is not None else 'plain'}" + (":" + _uf_kind(prev_pol, op) if op[0] == "updatefiltered" and prev_pol is not None else "") + (":novalues" if op[0] == "removefiltered" and len(op[4]) == 0 else ""),
                         "what": f"{shape.name}: {op[0]}{tuple(op[3:])} {bad}",
                         "case": case,
                         "model_text": shape.text,
